@@ -100,6 +100,10 @@ func stringToInt(ss string) (int64, error) {
 		return 0, strconv.ErrSyntax
 	}
 	if len(ss) > 2 {
+		if ss[0] == '0' && (ss[2] == '-' || ss[2] == '+') {
+			// strconv.ParseInt would accept a sign after the radix prefix
+			return 0, &strconv.NumError{Func: "ParseInt", Num: ss, Err: strconv.ErrSyntax}
+		}
 		switch ss[:2] {
 		case "0x", "0X":
 			return strconv.ParseInt(ss[2:], 16, 64)
